@@ -774,7 +774,7 @@ func ruleC03R6(c *Ctx) {
 func ruleC03R7(c *Ctx) {
 	fn := c.P.Fn(aScan)
 	var appends []ssa.Instruction
-	eachInstr(fn, func(in ssa.Instruction) {
+	c.eachInstrR(fn, func(in ssa.Instruction) {
 		if cl, ok := in.(*ssa.Call); ok {
 			if bi, ok := cl.Call.Value.(*ssa.Builtin); ok && bi.Name() == "append" {
 				if sl, ok := cl.Type().Underlying().(*types.Slice); ok && typeName(sl.Elem()) == "base.LogChunk" {
@@ -793,20 +793,20 @@ func ruleC03R7(c *Ctx) {
 	if len(sorts) == 1 {
 		names := sorts[0].Common().Args[0]
 		iter := false
-		eachInstr(fn, func(in ssa.Instruction) {
-			if ia, ok := in.(*ssa.IndexAddr); ok && ia.X == names {
+		c.eachInstrR(fn, func(in ssa.Instruction) {
+			if ia, ok := in.(*ssa.IndexAddr); ok && (ia.X == names || c.resolveR(fn, ia.X) == resolve(names)) {
 				iter = true
 			}
 		})
 		c.check(iter, "C03.R7", fn, "the sorted slice is the one iterated", sorts[0].Pos(), "loop indexes the sorted names", "the loop does not iterate the sorted slice")
 	}
-	match := sitesWhere(fn, func(s ssa.CallInstruction) bool {
+	match := c.sitesWhereR(fn, func(s ssa.CallInstruction) bool {
 		return fieldCallOf(s, "buffer/hybridbuffer.chunkOperator.matchChunkID")
 	})
 	for _, ap := range appends {
-		lp := loopOf(fn, ap.Block())
+		lp := loopOf(ap.Parent(), ap.Block())
 		okM := false
-		if lp != nil && len(match) == 1 {
+		if lp != nil && len(match) == 1 && match[0].Parent() == ap.Parent() {
 			te := boolEdges(match[0].Value(), true)
 			q := &PathQ{P: c.P, EdgeBlocked: edgeSet(te)}
 			hit, _ := q.Reach(Point{lp.header, 0}, func(in ssa.Instruction) bool { return in == ap })
@@ -816,7 +816,7 @@ func ruleC03R7(c *Ctx) {
 		// the id file is skipped
 		idConst := pkgConstString(c.P, "buffer/hybridbuffer", "idFileName")
 		okID := false
-		eachInstr(fn, func(in ssa.Instruction) {
+		eachInstr(ap.Parent(), func(in ssa.Instruction) {
 			bo, ok := in.(*ssa.BinOp)
 			if !ok || bo.Op != token.EQL {
 				return
@@ -835,7 +835,7 @@ func ruleC03R7(c *Ctx) {
 		c.check(okID || okM, "C03.R7", fn, "the .id file is never recovered as a chunk", ap.Pos(), "name == idFileName skips the iteration (and the matcher filters)", "the id file could be recovered as a chunk")
 		// the recovered chunk is {ID: name, Data: nil, Saved: true}
 		okLit := false
-		eachInstr(fn, func(in ssa.Instruction) {
+		eachInstr(ap.Parent(), func(in ssa.Instruction) {
 			if st, ok := in.(*ssa.Store); ok && fieldOf(st.Addr) == "base.LogChunk.Saved" {
 				if k, ok := st.Val.(*ssa.Const); ok && k.Value != nil && constant.BoolVal(k.Value) {
 					okLit = true
@@ -924,7 +924,11 @@ func ruleC03R9(c *Ctx) {
 		classes := []string{"pendingChunks.Inc", "pendingChunks.Dec", "consumed", "leftover", "dropped", "inputTransient", "inputPersistent"}
 		idx := map[string]int{"consumedChunksTotal": 2, "leftoverChunksTotal": 3, "droppedChunksTotal": 4, "inputChunksTotalTransient": 5, "inputChunksTotalPersistent": 6}
 		cs := &CountSpec{P: c.P, Classes: classes, Descend: func(f *ssa.Function) bool {
-			return isAnchor(f, aOnDropped, aOnConsumed, aOnLeftover, aOnCorrupted, aUnloadDrop, aLoadDrop)
+			if isAnchor(f, aOnDropped, aOnConsumed, aOnLeftover, aOnCorrupted, aUnloadDrop, aLoadDrop) {
+				return true
+			}
+			// unexported helpers of the manager (a shared "count as dropped" helper)
+			return hybridDescend(f) && f.Signature.Recv() != nil && !f.Object().Exported() && strings.Contains(f.Signature.Recv().Type().String(), "chunkManager")
 		},
 			Site: func(s ssa.CallInstruction) int {
 				cc := s.Common()
@@ -1006,6 +1010,39 @@ func ruleC03R10(c *Ctx) {
 			}
 			construct := fmt.Sprintf("persistentChunkBytes.%s(%s)", m, arg)
 			name := anchorName(fn)
+			// an update that stands in a shared helper is judged at every call of the helper, under the caller's name
+			if name != aUnloadChunk && name != aOpRecovered && name != aRemoveChunk {
+				if _, rev := lookupReviewed(c03R10Reviewed, name+"|"+m+"|"+arg); !rev && fn.Parent() == nil && c.P.onlyCalledFrom(fn, c.P.allFuncs) {
+					okAll := true
+					var whyBad string
+					for _, site := range c.P.staticSites[fn] {
+						caller := site.Parent()
+						if strings.Contains(caller.Synthetic, "wrapper") {
+							continue
+						}
+						cn := anchorName(caller)
+						okSite := false
+						switch {
+						case m == "Sub" && cn == aRemoveChunk:
+							for _, u := range c.callsTo(caller, anchorPred(aUnlinkAt)) {
+								for b, si := range nilEdges(u.Value(), true) {
+									if c.onlyViaEdge(caller, site.(ssa.Instruction), b, si) {
+										okSite = true
+									}
+								}
+							}
+						default:
+							_, okSite = lookupReviewed(c03R10Reviewed, cn+"|"+m+"|"+arg)
+						}
+						if !okSite {
+							okAll, whyBad = false, "called from "+cn+" at "+c.P.pos(site.Pos())
+						}
+					}
+					c.check(okAll, "C03.R10", fn, construct, s.Pos(), "the update stands in a helper; every call of the helper is after a successful unlink or a reviewed entry of its caller",
+						"the byte gauge used by the quota test changes in a helper that is "+whyBad+" without a matching change of the files on disk")
+					continue
+				}
+			}
 			switch {
 			case m == "Add" && name == aUnloadChunk:
 				ok := false
